@@ -435,3 +435,49 @@ func SourceHash() string {
 	}
 	return hex.EncodeToString(h.Sum(nil))[:16]
 }
+
+// Selftest validates the reference models (the oracles of the harnesses)
+// against golang.org/x/net/http2/hpack with a native differential test laid
+// over /repo. It decides no property.
+func Selftest(p *sym.Program) int {
+	tmp, err := os.MkdirTemp("", "verif-selftest-")
+	if err != nil {
+		fmt.Println("ENGINE-ERROR selftest:", err)
+		return 3
+	}
+	defer os.RemoveAll(tmp)
+	ov := map[string]map[string]string{"Replace": {}}
+	for virt, real := range p.Files {
+		ov["Replace"][virt] = real
+	}
+	ov["Replace"][filepath.Join(RepoDir, "zz_verif_oracle_test.go")] = filepath.Join(VerifDir, "tools", "oracle", "zz_verif_oracle_test.go")
+	oj, _ := json.Marshal(ov)
+	ovPath := filepath.Join(tmp, "overlay.json")
+	if err := os.WriteFile(ovPath, oj, 0o644); err != nil {
+		fmt.Println("ENGINE-ERROR selftest:", err)
+		return 3
+	}
+	cmd := exec.Command("go", "test", "-v", "-vet=off", "-count=1", "-overlay", ovPath, "-run", "^TestVerifOracle", "-timeout", "1800s", ".")
+	cmd.Dir = RepoDir
+	env := []string{}
+	for _, e := range os.Environ() {
+		if strings.HasPrefix(e, "GOTOOLCHAIN=") || strings.HasPrefix(e, "GOFLAGS=") || strings.HasPrefix(e, "PATH=") {
+			continue
+		}
+		env = append(env, e)
+	}
+	cmd.Env = append(env, "GOFLAGS=-mod=mod", "GOPROXY=off", "GOSUMDB=off", "PATH="+nativePath())
+	out, runErr := cmd.CombinedOutput()
+	for _, l := range strings.Split(string(out), "\n") {
+		if strings.HasPrefix(l, "VERIF-ORACLE") || strings.HasPrefix(l, "--- ") || strings.Contains(l, "zz_verif_oracle_test.go") {
+			fmt.Println(l)
+		}
+	}
+	if runErr != nil {
+		fmt.Println("SELFTEST-FAILED: a reference model disagrees with golang.org/x/net/http2/hpack (or the test did not build):")
+		fmt.Println(tail(string(out), 3000))
+		return 3
+	}
+	fmt.Println("SELFTEST-OK reference HPACK decoder and Huffman codec agree with golang.org/x/net/http2/hpack")
+	return 0
+}
